@@ -24,13 +24,16 @@ import (
 
 // C05: generated lexer code behaves exactly like the runtime lexer.
 
-func c05MapFor(seed int64, batch, i int) *lexgen.GMap {
+func c05MapFor(seed int64, batch, i int) *lexgen.GMap { return lexMapFor("C05", seed, batch, i) }
+
+// lexMapFor deterministically generates the i-th rule map of a batch (parent and child call it alike).
+func lexMapFor(id string, seed int64, batch, i int) *lexgen.GMap {
 	if batch == 0 && i == 0 {
 		// fixed definition with lexer-elided rules: driven with a very long run of elided tokens
 		return &lexgen.GMap{States: []string{"Root"}, Rules: map[string][]lexgen.GRule{"Root": {
 			{Name: "comment", Pattern: `#[^\n]*`}, {Name: "nl", Pattern: `\n`}, {Name: "Id", Pattern: `[a-z]+`}, {Name: "sp", Pattern: ` +`}}}}
 	}
-	r := mon.NewRNG(seed, "C05", batch, "map", i)
+	r := mon.NewRNG(seed, id, batch, "map", i)
 	return lexgen.GenMap(r, &lexgen.MapOpts{Supported: true, MaxStates: 1 + i%4, Elide: i%3 == 0, Plain: i%4 == 1})
 }
 
@@ -46,7 +49,14 @@ var c05LexDir = regexp.MustCompile(`lex(\d+)/`)
 
 // c05Prepare builds cmd/participle from the working tree, runs `participle
 // gen lexer` on every generated definition and compiles the emitted sources.
-func c05Prepare(p *mon.Parent) (func(int) string, error) {
+func c05Prepare(p *mon.Parent) (func(int) string, error) { return lexProgPrepare("C05", c05Count)(p) }
+
+// lexProgPrepare returns the Prepare step shared by C05 and C04 (generated-lexer part).
+func lexProgPrepare(id string, count func(tier string) int) func(p *mon.Parent) (func(int) string, error) {
+	return func(p *mon.Parent) (func(int) string, error) { return lexProgPrepareRun(id, count, p) }
+}
+
+func lexProgPrepareRun(id string, count func(tier string) int, p *mon.Parent) (func(int) string, error) {
 	env := append(os.Environ(), "GOFLAGS=-mod=mod", "GOPROXY=off", "GOSUMDB=off", "GOTOOLCHAIN=local")
 	tool := filepath.Join(p.Scratch, "participle-gen")
 	cmd := exec.Command("go", "build", "-o", tool, ".")
@@ -76,9 +86,9 @@ func c05Prepare(p *mon.Parent) (func(int) string, error) {
 			}
 			var fails []c05GenFail
 			var ok []int
-			n := c05Count(p.Tier)
+			n := count(p.Tier)
 			for i := 0; i < n; i++ {
-				g := c05MapFor(p.Seed, b, i)
+				g := lexMapFor(id, p.Seed, b, i)
 				def, err, panicked, _ := buildDef(g)
 				if panicked || err != nil {
 					continue
@@ -134,7 +144,7 @@ func c05Prepare(p *mon.Parent) (func(int) string, error) {
 								msg += line + "; "
 							}
 						}
-						fails = append(fails, c05GenFail{i, "emitted Go source does not compile: " + trunc(msg, 600), c05MapFor(p.Seed, b, i).String()})
+						fails = append(fails, c05GenFail{i, "emitted Go source does not compile: " + trunc(msg, 600), lexMapFor(id, p.Seed, b, i).String()})
 					} else {
 						keep = append(keep, i)
 					}
@@ -314,6 +324,18 @@ func c05Child(c *mon.Child) {
 		if c.Batch == 0 && idx == 0 {
 			inputs = append([]string{strings.Repeat("# c\n", 400000) + "x y", strings.Repeat("\n", 1000000), "a # c\nb  c\n"}, inputs[:10]...)
 		}
+		for k := 0; k+1 < len(inputs) && k < 16; k += 2 {
+			if len(inputs[k]) > 5000 || len(inputs[k+1]) > 5000 {
+				continue
+			}
+			key := fmt.Sprintf("m%d.pair%d", idx, k)
+			if !c.Want(key) {
+				continue
+			}
+			c.Begin(key, fmt.Sprintf("%s <- interleaved %q / %q", trunc(gdesc, 300), trunc(inputs[k], 100), trunc(inputs[k+1], 100)))
+			c05Interleave(c, key, gen, names, inputs[k], inputs[k+1], gdesc)
+			c.End(key)
+		}
 		for ii, in := range inputs {
 			key := fmt.Sprintf("m%d.i%d", idx, ii)
 			if !c.Want(key) {
@@ -413,6 +435,59 @@ func c05Child(c *mon.Child) {
 			c.End(key)
 		}
 	}
+}
+
+// c05Interleave advances two lexers made from the same generated definition
+// alternately and compares each stream with the same input lexed on its own:
+// lexers of one definition must not share state.
+func c05Interleave(c *mon.Child, key string, gen lexer.Definition, names map[lexer.TokenType]string, a, b string, gdesc string) {
+	step := func(lx lexer.Lexer, out *realLex) bool {
+		if out.EOF != nil || out.Err != nil || out.Panicked || len(out.Toks) > len(a)+len(b)+4 {
+			return false
+		}
+		var t lexer.Token
+		var err error
+		if p, pv, st := mon.Guard(func() { t, err = lx.Next() }); p {
+			out.Panicked, out.PanicVal, out.Stack = true, pv, st
+			return false
+		}
+		if err != nil {
+			out.Err = err
+			return false
+		}
+		if t.Type == lexer.EOF {
+			tt := t
+			out.EOF = &tt
+			return false
+		}
+		out.Toks = append(out.Toks, realTok{Name: names[t.Type], Tok: t})
+		return true
+	}
+	seq := func(in string) *realLex {
+		lx, _ := gen.(lexer.StringDefinition).LexString("i", in)
+		return lexAll(lx, names, len(in)+2)
+	}
+	wantA, wantB := seq(a), seq(b)
+	la, _ := gen.(lexer.StringDefinition).LexString("i", a)
+	lb, _ := gen.(lexer.StringDefinition).LexString("i", b)
+	gotA, gotB := &realLex{}, &realLex{}
+	for moreA, moreB := true, true; moreA || moreB; {
+		if moreA {
+			moreA = step(la, gotA)
+		}
+		if moreB {
+			moreB = step(lb, gotB)
+		}
+	}
+	c.Eval(1)
+	for i, pair := range [][2]*realLex{{wantA, gotA}, {wantB, gotB}} {
+		if d := c05Compare(pair[0], pair[1], 1<<30, false); d != "" {
+			c.Violation("", key, fmt.Sprintf("two lexers of one generated definition advanced alternately: lexer %d differs from the same input lexed alone (%s) | rules: %s | inputs: %q and %q", i, d, gdesc, trunc(a, 200), trunc(b, 200)),
+				map[string]interface{}{"input_a": a, "input_b": b})
+			return
+		}
+	}
+	c.Feature("interleaved_lexer_pairs_of_one_generated_definition")
 }
 
 func c05FailClass(what string) string { return "" }
